@@ -5,9 +5,12 @@ import Ovsdb.Model.Basic
   Update / Delete as written, valueFromIndex, rowsByModels, Index.
 
   Index values: a single-column index value is the column value (pointer
-  dereferenced; a nil pointer is its own value) — `[a]` or `[]`; a multi-column
-  value is the tuple of the non-nil components (the Go code gob-encodes the
-  non-nil components in order; gob is assumed injective on such tuples).
+  dereferenced; a nil pointer is its own value) — `[some a]` or `[none]`; a
+  multi-column value is the tuple of the components, an unset optional being a
+  component of its own (as repaired, defect D68: the pinned code left the nil
+  components out, so that (nil, a) and (a, nil) were one value; the Go code
+  gob-encodes a presence flag and the component, in order; gob is assumed
+  injective on such sequences).
   A set or map column used whole in an index contributes one canonical string
   (the repair of defect D67: a slice or map used directly as a Go map key
   panicked). The exactness theorems (C05, C08) keep their hypothesis that
@@ -17,7 +20,7 @@ import Ovsdb.Model.Basic
 namespace Ovsdb
 open AMap
 
-abbrev IdxVal := List Atom
+abbrev IdxVal := List (Option Atom)
 
 structure ColumnKey where
   col : String
@@ -55,7 +58,7 @@ def valueFromColumnKey (row : Row) (ck : ColumnKey) : Option Atom :=
   | _, _ => none
 
 def idxVal (spec : Spec) (row : Row) : IdxVal :=
-  spec.cols.filterMap (valueFromColumnKey row)
+  spec.cols.map (valueFromColumnKey row)
 
 structure Index where
   spec : Spec
